@@ -189,8 +189,13 @@ class MGen(object):
         t = self.var()
         self.seen.append({t})
         c = {'k': 'comp', 'form': self.rng.choice(['list', 'set', 'dict', 'gen']), 'name': t, 'site': self.site(),
-             'iter': it, 'cond': self.atoms(0, 1), 'elt': self.atoms(1, 2)}
+             'iter': it, 'cond': self.atoms(0, 1), 'elt': self.atoms(1, 2), 'walrus': None}
         self.seen.pop()
+        if kind != 'class' and self.rng.random() < 0.3:
+            w = self.rng.choice([n for n in self.names if n != t] or [None])
+            if w:
+                # (w := ...) in the element: binds in the scope the comprehension is written in, if the comprehension runs
+                c['walrus'] = [self.bound(w), self.site()]
         return c
 
     # ---- shape families: deep / rare constellations the random grammar reaches too seldom ---------------------------
@@ -322,6 +327,8 @@ def own_bound(body):
             out.add(s['name'])
         elif k == 'star':
             out |= {n for n, _ in s['names']}
+        elif k == 'comp' and s.get('walrus'):
+            out.add(s['walrus'][0])
         elif k == 'for':
             out.add(s['name'])
             out |= own_bound(s['body'])
@@ -503,7 +510,11 @@ def render(body):
         elif k == 'comp':
             opener, closer = {'list': ('[', ']'), 'set': ('{', '}'), 'dict': ('{0: ', '}'), 'gen': ('list(', ')')}[s['form']]
             head = pad + '_vo.e(' + opener
-            text = head + reads(s['elt'], line, len(head))
+            if s.get('walrus'):
+                head += '_vo.e((%s := _vo.b(%d)), ' % (s['walrus'][0], s['walrus'][1])
+                text = head + reads(s['elt'], line, len(head)) + ')'
+            else:
+                text = head + reads(s['elt'], line, len(head))
             text += ' for %s in ' % s['name']
             text += reads(s['iter'], line, len(text), fn='_vo.it1(%d, _vo.e' % s['site']) + ')'
             if s['cond']:
@@ -609,7 +620,8 @@ def reduce_program(body):
         if k == 'comp':
             ids = rd_nodes(s['iter'], o)
             sc = new_scope(kind='comp', parent=o, params=[{'n': s['name'], 's': s['site']}])
-            scopes[sc]['root'] = seq(rd_nodes(s['cond'], sc) + rd_nodes(s['elt'], sc), sc)
+            wb = [new(k='wbind', n=s['walrus'][0], s=s['walrus'][1], o=sc)] if s.get('walrus') else []
+            scopes[sc]['root'] = seq(rd_nodes(s['cond'], sc) + wb + rd_nodes(s['elt'], sc), sc)
             return ids + [new(k='comp', sc=sc, o=o)]
         raise AssertionError(k)
 
@@ -675,7 +687,8 @@ class MOracle(prog.Oracle):
             yield prog.Token(site)
 
     def it1(self, site, _e):
-        return [prog.Token(site)]
+        # the iterable of a comprehension: one item or none
+        return [prog.Token(site)] if self.choose(2) else []
 
     def c(self, x):
         self.tick()
@@ -785,6 +798,8 @@ def mentions(body):
             out.add(s['name'])
         if s['k'] == 'star':
             out |= {n for n, _ in s['names']}
+        if s.get('walrus'):
+            out.add(s['walrus'][0])
         for p in s.get('params') or []:
             out.add(p[1])
             for a in p[3] + p[4]:
@@ -924,6 +939,8 @@ def site_positions(body, source):
             blk(s['body'])
         elif k == 'comp':
             take(ln, s['name'], 'name', s['site'])
+            if s.get('walrus'):
+                take(ln, s['walrus'][0], 'name', s['walrus'][1])
     blk(body)
     return pos, names
 
